@@ -171,6 +171,11 @@ pub fn run_case(seed: u64, k: usize, thorough: bool, only: Option<(usize, usize)
     for (c, ev) in rec.log.iter().enumerate() {
         fs.apply_ev(ev);
         if let Ev::Mark(m) = ev {
+            // base 0: the freshly created database, before its first transaction (a log without
+            // any complete transaction in front of the tail)
+            if bases.is_empty() && live_idx == 0 && (m.starts_with("start ") || m.starts_with("op_begin")) {
+                bases.push((c, fs.clone(), 0));
+            }
             if m.starts_with("ack ") || m.starts_with("op_end ") {
                 live_idx += 1;
             }
@@ -183,10 +188,18 @@ pub fn run_case(seed: u64, k: usize, thorough: bool, only: Option<(usize, usize)
     let root = ScratchDir::new("tails");
     let mut n = 0usize;
     for (bi, (pos, bfs, li)) in bases.iter().enumerate() {
-        if !thorough && bases.len() > 3 && bi % 2 == 1 {
+        if !thorough && bases.len() > 3 && bi % 2 == 1 && bi != 0 {
             continue;
         }
-        let Some(base_wal) = bfs.full_content("g.wal") else { continue };
+        // the log of a freshly created database may not have been written to at all: empty
+        let base_wal = match bfs.full_content("g.wal") {
+            Some(w) => w,
+            None if bi == 0 => Vec::new(),
+            None => continue,
+        };
+        if bi == 0 {
+            out.count("bases_without_a_committed_transaction", 1);
+        }
         // bytes the next transaction appended to the log (if there is one)
         let mut next_tx = Vec::new();
         let mut in_next = false;
